@@ -8,6 +8,7 @@ import numpy as np
 from vlib import core, prog, physics
 
 ASSUME = [
+    "one case in five gives the step size through StepsPerRevolution (non-integer number of steps per synchrotron period, StepsPerTs left at an unrelated value): a = 2 pi / (steps per period the options imply)",
     "decided only for stationary, below-threshold states: stationarity gate = the last five recorded profiles (one per synchrotron period), each normalised to unit sum, agree to 5e-4 of the peak (runs last 20 damping times); otherwise the case is inconclusive, not a verdict",
     "R(q) = ln rho(q) + q^2/2 - (1/a) * integral W_E dq with a = 2 pi/steps, W_E = stored wake (cells per step) * energy cell size, trapezoid rule on /Info/AxisValues_z; range of R over |q| <= 2 must be <= 5% of the range of the wake term + 0.01 + 4*c*delta^2 (discretisation error of the grid's own equilibrium width, c as in C04)",
     "sign convention derived from the maps: drift moves charge by -a*p, RF kick by +tan(a)*q, wake kick by -W cells",
@@ -47,7 +48,13 @@ def gen(seed, i, tier):
         o["InterpolationPoints"] = 3
     if r.chance(0.5):
         o["InitialDistZoom"] = r.choice([0.7, 1.4])     # relaxation "from any start"
+    if i % 5 == 4:
+        o["_steps_per_revolution"] = True           # step size given per revolution (overrides StepsPerTs, which is left at another value)
     return kind, o, e1, target
+
+
+def r_decoy(seed, i, steps):
+    return core.Rng("c05decoy", seed, i).choice([steps * 2, max(50, steps // 3), 1000 if abs(steps - 1000) > 300 else 250])
 
 
 def analyse(h, P):
@@ -75,6 +82,11 @@ def run_case(args):
     kind, o, e1, target = gen(ctx.seed, i, ctx.tier)
     run = {k: v for k, v in o.items() if not k.startswith("_")}
     P = physics.derive(run)
+    if o.get("_steps_per_revolution"):
+        run["StepsPerRevolution"] = round(P["steps"] * 1.0137 * P["fs"] / P["frev"], 6)      # a non-integer number of steps per synchrotron period
+        run["StepsPerTs"] = int(r_decoy(ctx.seed, i, P["steps"]))
+        P = physics.derive(run)
+        run["outstep"] = int(round(P["steps"]))
     td = 2.0 / (P["fs"] * e1 * P["steps"])
     T = float(int(math.ceil(40.0 / (e1 * P["steps"]))) + 6)
     wd = os.path.join(sdir, "c%04d" % i)
